@@ -371,53 +371,9 @@ func runC07(c *Ctx) {
 		c.check(n >= 8, "R4", "panic-capable sites on request data", "?", fmt.Sprintf("%d sites examined", n), fmt.Sprintf("only %d sites found", n))
 		// allocator page invariant: everything stored in the page lists is a maxMsgLength page or came from them
 		checkPageInvariant(c, "R4")
-		// decoded attributes are dereferenced only if decoding succeeded
-		if at := p.Func("(*Request).Attributes"); at != nil {
-			mayNil := false
-			eachInstr(at, func(in ssa.Instruction) {
-				if r, ok := in.(*ssa.Return); ok && isReturn(in) {
-					for _, l := range leavesOf(r.Results[0]) {
-						if l.Kind == leafCallResult && calleeName(l.Call) == "unmarshalFileStat" {
-							// is the error of that call examined?
-							examined := false
-							if call, ok := l.CallIn.(*ssa.Call); ok {
-								for _, rr := range *call.Referrers() {
-									if ex, ok := rr.(*ssa.Extract); ok && ex.Index == 2 {
-										for _, u := range *ex.Referrers() {
-											if _, dbg := u.(*ssa.DebugRef); !dbg {
-												examined = true
-											}
-										}
-									}
-								}
-							}
-							if !examined {
-								mayNil = true
-							}
-						}
-					}
-				}
-			})
-			if mayNil {
-				for _, site := range p.callersOfStatic(at) {
-					call, ok := site.(*ssa.Call)
-					if !ok {
-						continue
-					}
-					deref := false
-					for _, r := range *call.Referrers() {
-						if _, ok := r.(*ssa.FieldAddr); ok {
-							deref = true
-						}
-					}
-					if deref {
-						c.bad("R4", "Attributes() result dereferenced in "+fnName(site.Parent()), pos(site), "Request.Attributes() returns nil when the attribute bytes are truncated (the decoding error is discarded) and the result is dereferenced: a SETSTAT with a size flag and no attribute bytes crashes the handler")
-					}
-				}
-			}
-		}
 	}
 	checkJoinUnderLock(c, "R5")
+	checkAttrsValidatedAtDecode(c, "R6")
 }
 
 // checkJoinUnderLock: a function that waits for goroutines (WaitGroup.Wait) must not hold a mutex that the
@@ -642,4 +598,129 @@ func checkPageInvariant(c *Ctx, rule string) {
 	}
 	c.check(okAll && n >= 2, rule, "allocator pages are maxMsgLength long", posS, "everything put on the page lists is a make([]byte, maxMsgLength) or came from the lists",
 		"a slice that is not a full maxMsgLength page can enter the allocator's lists: recvPacket and getDataSlice slice pages up to 256 KiB")
+}
+
+
+// checkAttrsValidatedAtDecode (C07.R6): a request that carries an ATTRS block (OPEN, MKDIR, SETSTAT, FSETSTAT) is
+// malformed when the block is shorter than its flags word announces.  The handlers consume the block only partly
+// (OPEN reads the permissions, MKDIR nothing, Request.Attributes() discards the decoding error), so the only place
+// that can refuse such a packet for both servers is its decoder: UnmarshalBinary must return nil only after
+// unmarshalFileStat(flags, rest) succeeded on the very flags and bytes it stores.
+func checkAttrsValidatedAtDecode(c *Ctx, rule string) {
+	p := c.P
+	n := 0
+	for _, tn := range p.Sftp.Pkg.Scope().Names() {
+		obj, ok := p.Sftp.Pkg.Scope().Lookup(tn).(*types.TypeName)
+		if !ok {
+			continue
+		}
+		st, ok := obj.Type().Underlying().(*types.Struct)
+		if !ok || !p.isRequestType(types.NewPointer(obj.Type())) {
+			continue
+		}
+		hasFlags := false
+		for i := 0; i < st.NumFields(); i++ {
+			if st.Field(i).Name() == "Flags" {
+				hasFlags = true
+			}
+		}
+		if !hasFlags {
+			continue
+		}
+		fn := p.Func("(*" + tn + ").UnmarshalBinary")
+		if fn == nil {
+			continue
+		}
+		n++
+		key := tn + " decoder validates its attribute block"
+		// the value stored to p.Flags and the bytes that follow it
+		var flagsV, restV ssa.Value
+		var attrsStored ssa.Value
+		eachInstr(fn, func(in ssa.Instruction) {
+			st, ok := in.(*ssa.Store)
+			if !ok {
+				return
+			}
+			_, name, _, ok := fieldOf(st.Addr)
+			if !ok {
+				return
+			}
+			switch name {
+			case "Flags":
+				flagsV = st.Val
+				if ex, ok := st.Val.(*ssa.Extract); ok {
+					for _, r := range *ex.Tuple.Referrers() {
+						if ex2, ok := r.(*ssa.Extract); ok && ex2.Index == 1 {
+							restV = ex2
+						}
+					}
+				}
+			case "Attrs":
+				attrsStored = st.Val
+				if mi, ok := st.Val.(*ssa.MakeInterface); ok {
+					attrsStored = mi.X
+				}
+			}
+		})
+		if flagsV == nil || restV == nil {
+			c.und(rule, key, p.Pos(fn.Pos()), "cannot find the decoded flags word and the bytes after it")
+			continue
+		}
+		var val *ssa.Call
+		eachInstr(fn, func(in ssa.Instruction) {
+			call, ok := in.(*ssa.Call)
+			if !ok || calleeName(&call.Call) != "unmarshalFileStat" || len(call.Call.Args) != 2 {
+				return
+			}
+			a0ok := call.Call.Args[0] == flagsV
+			for _, l := range leavesOf(call.Call.Args[0]) {
+				if l.Kind == leafFieldLoad && l.Field == "Flags" {
+					a0ok = true
+				}
+			}
+			if a0ok && call.Call.Args[1] == restV {
+				val = call
+			}
+		})
+		if val == nil {
+			c.bad(rule, key, p.Pos(fn.Pos()), tn+" is decoded without checking that the attribute bytes announced by its flags word are present: a truncated attribute block is handed on and the request is acted upon (file opened or truncated, directory made, handler called with undecodable attributes)")
+			continue
+		}
+		var errEx ssa.Value
+		for _, r := range *val.Referrers() {
+			if ex, ok := r.(*ssa.Extract); ok && ex.Index == 2 {
+				errEx = ex
+			}
+		}
+		good := errEx != nil
+		why := "the error of unmarshalFileStat is not examined"
+		if good {
+			for _, rl := range returnLeaves(fn, 0) {
+				k, isNil := rl.v.(*ssa.Const)
+				if !isNil || k.Value != nil {
+					continue
+				}
+				okHere := false
+				for cv, truth := range edgeConds(rl.block, rl.pred) {
+					b, ok := cv.(*ssa.BinOp)
+					if !ok || !isNilConst(b.Y) || b.X != errEx {
+						continue
+					}
+					if (b.Op == token.NEQ && !truth) || (b.Op == token.EQL && truth) {
+						okHere = true
+					}
+				}
+				if !okHere {
+					good = false
+					why = "a nil return is reachable without a successful validation of the attribute block"
+				}
+			}
+		}
+		if good && attrsStored != nil && attrsStored != restV {
+			good = false
+			why = "the bytes stored in Attrs are not the bytes that were validated"
+		}
+		c.check(good, rule, key, p.Pos(val.Pos()), "nil only after unmarshalFileStat(flags, rest) succeeded on the stored flags and bytes", tn+": "+why)
+	}
+	c.check(n >= 4, rule, "requests with an attribute block", "?", fmt.Sprintf("%d decoders", n), fmt.Sprintf("only %d request decoders with a Flags word found (OPEN, MKDIR, SETSTAT, FSETSTAT expected)", n))
 }
